@@ -245,8 +245,14 @@ def run(ck):
                 small = shrink(ck, exe, model, c, still_bad) if len("".join(TL.case_text(c))) > 8 else c
                 x = with_mask(one(exe, small), repaired)
                 y = TL.split_cov(one(model, x))[0]
-                ck.broken.append("correspondence tree-builder model vs html5ever: %s\n first difference (event #, impl, model): %s"
-                                 % (json.dumps(TL.describe(small), ensure_ascii=True), TL.first_diff(x, y)))
+                what = "correspondence tree-builder model vs html5ever"
+                if "PANIC 99" in y:
+                    what = ("the SHAPE ASSUMPTION of Props/C02.v C02_tree_no_panic_partial failed (ghost assertion 99, "
+                            "TreeModelRules.hshape_b): the model stopped where html5ever did not")
+                elif "FUEL" in y:
+                    what = "the fuel bound of the model's Reprocess loop (TreeModel.ptc_fuel) was too small"
+                ck.broken.append("%s: %s\n first difference (event #, impl, model): %s"
+                                 % (what, json.dumps(TL.describe(small), ensure_ascii=True), TL.first_diff(x, y)))
     arms = one(model, "#arms").split()[1:]
     allp = set()
     for a in arms:
@@ -296,7 +302,11 @@ def run(ck):
                 "(input, context) whose parse created at least 4 elements",
         "samples": [TL.describe(c) for c in cases[-2:]],
         "whatwg_differences_by_class": dev_hist, "oracle_failures": oracle_fail, "impl_panics": panics,
-        "explanation": "Props/C02.v: theorems over the Gallina model; tie: event-for-event correspondence of the model "
+        "shape_assumption": "ghost assertion 99 (the 4 mode-vs-stack facts assumed by C02_tree_no_panic_partial) evaluated on "
+                            "every loop iteration of every case above: %s" % ("never failed" if not bad else "see broken"),
+        "explanation": "Props/C02.v: theorems over the Gallina model (invariant TInv preserved by every arm of every "
+                       "insertion mode; no Panic site of the census reachable except the ghost assertion; handles); "
+                       "tie: event-for-event correspondence of the model "
                        "(switches = html5ever) with the real TreeBuilder; oracle: DomSpec tree of the implementation's "
                        "operations vs the WHATWG variant of the model; every difference must be explained by known "
                        "deviation switches.",
